@@ -137,7 +137,9 @@ func checkC01(c *chk.Ctx) {
 			msg.Fields = append(msg.Fields,
 				&abs.Field{Name: "p", Num: 1, Kind: cc.Kind, Card: "one", Rules: abs.NoRules()},
 				&abs.Field{Name: "q", Num: 2, Kind: cc.Kind, Card: "one", Rules: abs.NoRules(), Ann: abs.Ann{Query: true}},
-				&abs.Field{Name: "rq", Num: 3, Kind: cc.Kind, Card: "one", Rules: abs.NoRules(), Ann: abs.Ann{Query: true, QueryReq: true}})
+				&abs.Field{Name: "rq", Num: 3, Kind: cc.Kind, Card: "one", Rules: abs.NoRules(), Ann: abs.Ann{Query: true, QueryReq: true}},
+				&abs.Field{Name: "rep", Num: 6, Kind: "string", Card: "rep", Rules: abs.NoRules(), Ann: abs.Ann{Query: true}},
+				&abs.Field{Name: "oq", Num: 7, Kind: "int32", Card: "opt", Rules: abs.NoRules(), Ann: abs.Ann{Query: true}})
 		}
 		if bodyVerb(cc.Verb) {
 			b := &abs.Field{Name: "b", Num: 4, Kind: "string", Card: "one", Rules: abs.NoRules()}
@@ -249,6 +251,12 @@ func checkC01(c *chk.Ctx) {
 			set1("p", cc.Pcls)
 			set1("q", cc.Qcls)
 			set1("rq", cc.Qcls)
+			if cc.Qcls != "zero" {
+				l := m.Mutable(fds.ByName("rep")).List()
+				l.Append(protoreflect.ValueOfString("r1"))
+				l.Append(protoreflect.ValueOfString("r 2,x&y"))
+				m.Set(fds.ByName("oq"), protoreflect.ValueOfInt32(map[bool]int32{false: 7, true: 0}[cc.Qcls == "max"])) // max: set to 0, presence counts
+			}
 		}
 		if bodyVerb(cc.Verb) && ok {
 			fd := fds.ByName("b")
@@ -327,8 +335,9 @@ func checkC01(c *chk.Ctx) {
 			}
 			return out
 		}
-		fields := []string{"p", "q", "rq"}
-		pathVars, query := []string{"p"}, []map[string]any{{"field": "q", "name": "q", "required": false}, {"field": "rq", "name": "rq", "required": true}}
+		fields := []string{"p", "q", "rq", "rep", "oq"}
+		pathVars, query := []string{"p"}, []map[string]any{{"field": "q", "name": "q", "required": false}, {"field": "rq", "name": "rq", "required": true},
+			{"field": "rep", "name": "rep", "required": false}, {"field": "oq", "name": "oq", "required": false}}
 		if p.cc.Route == "default" {
 			fields, pathVars, query = []string{}, []string{}, []map[string]any{}
 		}
@@ -376,9 +385,19 @@ func checkC01(c *chk.Ctx) {
 				}
 				queryVals := []map[string]string{}
 				q, _ := url.ParseQuery(fmt.Sprint(e["rawQuery"]))
-				for _, n := range []string{"q", "rq"} {
+				for _, n := range []string{"q", "rq", "rep", "oq"} {
 					if p.cc.Route == "default" {
 						break
+					}
+					if fd := md.Fields().ByName(protoreflect.Name(n)); fd != nil && fd.IsList() {
+						if vs, ok := q[n]; ok && len(vs) > 0 {
+							tmp := dynamicpb.NewMessage(md)
+							for _, one := range vs {
+								tmp.Mutable(fd).List().Append(protoreflect.ValueOfString(one))
+							}
+							queryVals = append(queryVals, map[string]string{"k": n, "v": val.Field(tmp, fd)})
+						}
+						continue
 					}
 					if vs, ok := q[n]; ok && len(vs) > 0 {
 						if v, err := parseScalarText(md.Fields().ByName(protoreflect.Name(n)), vs[0]); err == nil {
